@@ -443,7 +443,7 @@ pub fn check(prop: &str, tier: Tier, seed: u64) -> CheckReport {
         minimised += 1;
         // minimisation is expensive: only the first few violations of a run
         // are shrunk, the rest keep their original (already replayable) plan
-        let min_budget = if minimised <= 4 && spec.family != "crash" {
+        let min_budget = if minimised <= 4 && spec.family != "crash" && std::env::var("VERIF_NOMIN").is_err() {
             if tier == Tier::Quick { 45 } else { 180 }
         } else {
             0
